@@ -1,4 +1,4 @@
-import Cuckoo.Proofs.Defs
+import Cuckoo.Proofs.MigrateAux3
 /-!
 Chunk A — lazy and batch migration (`move_bucket`, `rehash_lock`, `lock_one/two/three`,
 `rehash_with_workers`) preserve the invariant and the live view.  Helper lemmas only.
@@ -23,7 +23,194 @@ theorem moveBucket_spec (c : Cfg κ) (old cur : Store κ ν) (b : Nat) (hS : 0 <
       ∀ b1 s1 b2 s2 sl sl', (b1 = b ∨ b1 = b + 2 ^ old.hp) → (b2 = b ∨ b2 = b + 2 ^ old.hp) →
         (moveBucket c old cur b).get c.S b1 s1 = some sl → (moveBucket c old cur b).get c.S b2 s2 = some sl' →
         sl.key = sl'.key → b1 = b2 ∧ s1 = s2) := by
-  sorry
+  exact moveBucket_facts c old cur b hS ho hsz hhp hb he1 he2
+/-! ### `rehashLock`: defining equations -/
+
+/-- the table after stripe `l` has been split into the current array (no `rem` bookkeeping) -/
+def migT (c : Cfg κ) (t : Table κ ν) (l : Nat) (o : Store κ ν) : Table κ ν :=
+  { t with cur := migrateBuckets c o l ((2 ^ o.hp + c.M - 1 - l) / c.M) l t.cur,
+           locks := t.locks.modify l (fun x => { x with migrated := true }) }
+
+/-- … and the old array dropped (the last lazy step) -/
+def migT0 (c : Cfg κ) (t : Table κ ν) (l : Nat) (o : Store κ ν) : Table κ ν :=
+  { migT c t l o with rem := 0, old := none }
+
+/-- … and one fewer stripe remaining (any other lazy step) -/
+def migTr (c : Cfg κ) (t : Table κ ν) (l : Nat) (o : Store κ ν) : Table κ ν :=
+  { migT c t l o with rem := t.rem - 1 }
+
+theorem rehashLock_active (c : Cfg κ) (t : Table κ ν) (l : Nat) (lk : Lock) (o : Store κ ν) (z : Bool)
+    (hlk : t.locks[l]? = some lk) (hmig : lk.migrated = false) (hold : t.old = some o) :
+    t.rehashLock c l z =
+      if z then (if t.rem = 1 then migT0 c t l o else migTr c t l o)
+      else migT c t l o := by
+  unfold Table.rehashLock
+  rw [hlk]
+  simp only [hmig, hold]
+  cases z <;> simp [migT, migT0, migTr, hold]
+
+theorem rehashLock_skip (c : Cfg κ) (t : Table κ ν) (l : Nat) (z : Bool)
+    (h : ∀ lk, t.locks[l]? = some lk → lk.migrated = true ∨ t.old = none) :
+    t.rehashLock c l z = t := by
+  unfold Table.rehashLock
+  cases hlk : t.locks[l]? with
+  | none => rfl
+  | some lk =>
+    simp only []
+    rcases h lk hlk with h1 | h1
+    · simp [h1]
+    · simp [h1]
+
+/-! ### congruence of the live view -/
+
+theorem unmigB_congr (c : Cfg κ) (t t' : Table κ ν) (h : t'.locks = t.locks) (b : Nat) :
+    t'.unmigB c b = t.unmigB c b := by
+  unfold Table.unmigB; rw [h]
+
+theorem unmigB_false_of_flag (c : Cfg κ) (t : Table κ ν) (b : Nat)
+    (h : ∀ lk, t.locks[c.lockInd b]? = some lk → lk.migrated = true) : t.unmigB c b = false := by
+  unfold Table.unmigB
+  split
+  · rename_i lk hlk; simp [h lk hlk]
+  · rfl
+
+theorem at_congr (c : Cfg κ) (t t' : Table κ ν) (hc : t'.cur = t.cur) (hl : t'.locks = t.locks)
+    (ho : t'.old = t.old) (p : Loc) : t'.at c p = t.at c p := by
+  cases p with
+  | cur b s => show t'.cur.get _ _ _ = t.cur.get _ _ _; rw [hc]
+  | old b s => simp only [Table.at]; rw [ho, unmigB_congr c t t' hl]
+
+theorem at_dropOld (c : Cfg κ) (t t' : Table κ ν) (hc : t'.cur = t.cur) (_hl : t'.locks = t.locks)
+    (ho : t'.old = none) (hz : t.nUnmig = 0) (p : Loc) : t'.at c p = t.at c p := by
+  cases p with
+  | cur b s => show t'.cur.get _ _ _ = t.cur.get _ _ _; rw [hc]
+  | old b s =>
+    simp only [Table.at]
+    rw [ho, ((nUnmig_zero_iff t).mp hz).unmigB (c := c) b]
+    cases t.old <;> simp
+
+theorem WInv.of_at_eq (c : Cfg κ) (t t' : Table κ ν) (hw : WInv c t) (hc : t'.cur = t.cur)
+    (hl : t'.locks = t.locks) (hm : t'.mhp = t.mhp) (hat : ∀ p, t'.at c p = t.at c p)
+    (hp : 0 < t.nUnmig → t'.old = t.old) : WInv c t' := by
+  have hhp : t'.hp = t.hp := by unfold Table.hp; rw [hc]
+  have hn : t'.nUnmig = t.nUnmig := by unfold Table.nUnmig; rw [hl]
+  refine ⟨hw.S_pos, hw.M_pow, by rw [hc]; exact hw.cur_wf, by rw [hl]; exact hw.locks_pow,
+    by rw [hl]; exact hw.locks_le, by rw [hl, hhp]; exact hw.locks_ge, ?_, ?_, ?_,
+    by rw [hm, hhp]; exact hw.limit⟩
+  · intro h
+    rw [hn] at h
+    rw [hp h, hhp, hl]
+    exact hw.pending h
+  · intro b s hu
+    rw [unmigB_congr c t t' hl] at hu
+    rw [hc]; exact hw.unmig_empty b s hu
+  · intro p p' sl sl' h1 h2
+    rw [hat] at h1 h2
+    exact hw.uniq p p' sl sl' h1 h2
+
+theorem live_of_at_eq {c : Cfg κ} {t t' : Table κ ν} (hat : ∀ p, t'.at c p = t.at c p) (sl : Slot κ ν) :
+    t'.Live c sl ↔ t.Live c sl := by
+  unfold Table.Live; simp only [hat]
+
+/-! ### one migration step, lazy or not -/
+
+theorem migStep_full (c : Cfg κ) (t t1 : Table κ ν) (l : Nat) (lk : Lock) (o : Store κ ν)
+    (hw : WInv c t) (hlk : t.locks[l]? = some lk) (hmig : lk.migrated = false) (hold : t.old = some o)
+    (hcur : t1.cur = (migT c t l o).cur) (hlocks : t1.locks = (migT c t l o).locks)
+    (hold1 : t1.old = t.old ∨ (t1.old = none ∧ t.nUnmig = 1))
+    (hmhp : t1.mhp = t.mhp) (hmlf : t1.mlf = t.mlf) (hwk : t1.workers = t.workers) (hrc : t1.rc = t.rc) :
+    WInv c t1 ∧ Same c t t1 ∧ Keeps c t t1 ∧ t1.locks.size = t.locks.size ∧
+    (∀ lk, t1.locks[l]? = some lk → lk.migrated = true) ∧
+    (∀ (i : Nat), (∀ lk : Lock, t.locks[i]? = some lk → lk.migrated = true) →
+      ∀ lk : Lock, t1.locks[i]? = some lk → lk.migrated = true) ∧
+    t1.nUnmig + 1 = t.nUnmig := by
+  obtain ⟨w0, live0, n0, sum0, hp0, un0⟩ :=
+    migStep_spec c t (migT c t l o) l lk o hw hlk hmig hold rfl rfl rfl rfl
+  have hn : t1.nUnmig = (migT c t l o).nUnmig := by unfold Table.nUnmig; rw [hlocks]
+  have hat : ∀ p, t1.at c p = (migT c t l o).at c p := by
+    rcases hold1 with h | ⟨h, h1⟩
+    · exact at_congr c _ t1 hcur hlocks h
+    · exact at_dropOld c _ t1 hcur hlocks h (by omega)
+  have w1 : WInv c t1 := by
+    refine WInv.of_at_eq c _ t1 w0 hcur hlocks hmhp hat ?_
+    intro hp
+    rcases hold1 with h | ⟨h, h1⟩
+    · exact h
+    · omega
+  have hml : (migT c t l o).locks = t.locks.modify l (fun x => { x with migrated := true }) := rfl
+  refine ⟨w1, ⟨fun sl => (live_of_at_eq hat sl).trans (live0 sl), ?_, hmlf, hmhp, hwk⟩,
+    ⟨?_, hrc, ?_, ?_⟩, ?_, ?_, ?_, by omega⟩
+  · unfold Table.sumCnt at sum0 ⊢
+    rw [hlocks]; exact sum0
+  · have : t1.hp = (migT c t l o).hp := by unfold Table.hp; rw [hcur]
+    rw [this]; exact hp0
+  · intro b hb
+    rw [unmigB_congr c _ t1 hlocks, un0]
+    split
+    · rfl
+    · exact hb
+  · intro ha
+    have := ha l lk hlk
+    rw [hmig] at this; cases this
+  · rw [hlocks, hml, Array.size_modify]
+  · intro lk' h
+    rw [hlocks, hml, Array.getElem?_modify, if_pos rfl, hlk] at h
+    cases h; rfl
+  · intro i hi lk' h
+    rw [hlocks, hml, Array.getElem?_modify] at h
+    by_cases e : l = i
+    · subst e
+      rw [if_pos rfl, hlk] at h
+      cases h; rfl
+    · rw [if_neg e] at h
+      exact hi lk' h
+
+theorem rehashLock_step (c : Cfg κ) (t : Table κ ν) (l : Nat) (z : Bool) (hw : WInv c t)
+    (hz : z = true → t.rem = t.nUnmig) :
+    WInv c (t.rehashLock c l z) ∧ Same c t (t.rehashLock c l z) ∧ Keeps c t (t.rehashLock c l z) ∧
+    (t.rehashLock c l z).locks.size = t.locks.size ∧ (t.rehashLock c l z).oldGens = t.oldGens ∧
+    (∀ lk, (t.rehashLock c l z).locks[l]? = some lk → lk.migrated = true) ∧
+    (∀ (i : Nat), (∀ lk : Lock, t.locks[i]? = some lk → lk.migrated = true) →
+      ∀ lk : Lock, (t.rehashLock c l z).locks[i]? = some lk → lk.migrated = true) ∧
+    (z = true → (t.rehashLock c l z).rem = (t.rehashLock c l z).nUnmig) := by
+  cases hlk : t.locks[l]? with
+  | none =>
+    rw [rehashLock_skip c t l z (by intro lk h; rw [hlk] at h; cases h)]
+    exact ⟨hw, Same.refl c t, Keeps.refl c t, rfl, rfl, (by intro lk h; rw [hlk] at h; cases h),
+      fun i h => h, hz⟩
+  | some lk =>
+    cases hmig : lk.migrated with
+    | true =>
+      rw [rehashLock_skip c t l z (by intro lk' h; rw [hlk] at h; cases h; exact Or.inl hmig)]
+      exact ⟨hw, Same.refl c t, Keeps.refl c t, rfl, rfl,
+        (by intro lk' h; rw [hlk] at h; cases h; exact hmig), fun i h => h, hz⟩
+    | false =>
+      obtain ⟨o, hold, _⟩ := hw.pending (nUnmig_pos_of t l lk hlk hmig)
+      rw [rehashLock_active c t l lk o z hlk hmig hold]
+      cases z with
+      | false =>
+        simp only [Bool.false_eq_true, if_false]
+        obtain ⟨a1, a2, a3, a4, a5, a6, _⟩ :=
+          migStep_full c t (migT c t l o) l lk o hw hlk hmig hold rfl rfl (Or.inl rfl) rfl rfl rfl rfl
+        exact ⟨a1, a2, a3, a4, rfl, a5, a6, fun h => by cases h⟩
+      | true =>
+        simp only [if_true]
+        have hr := hz rfl
+        by_cases h1 : t.rem = 1
+        · rw [if_pos h1]
+          obtain ⟨a1, a2, a3, a4, a5, a6, a7⟩ :=
+            migStep_full c t (migT0 c t l o) l lk o hw hlk hmig hold rfl rfl
+              (Or.inr ⟨rfl, by omega⟩) rfl rfl rfl rfl
+          refine ⟨a1, a2, a3, a4, rfl, a5, a6, fun _ => ?_⟩
+          show 0 = (migT0 c t l o).nUnmig
+          omega
+        · rw [if_neg h1]
+          obtain ⟨a1, a2, a3, a4, a5, a6, a7⟩ :=
+            migStep_full c t (migTr c t l o) l lk o hw hlk hmig hold rfl rfl
+              (Or.inl rfl) rfl rfl rfl rfl
+          refine ⟨a1, a2, a3, a4, rfl, a5, a6, fun _ => ?_⟩
+          show t.rem - 1 = (migTr c t l o).nUnmig
+          omega
 
 /-- taking stripe `l` (lazily migrating it) -/
 theorem rehashLock_lazy_spec (c : Cfg κ) (t : Table κ ν) (l : Nat) (h : Inv c t) :
@@ -31,36 +218,118 @@ theorem rehashLock_lazy_spec (c : Cfg κ) (t : Table κ ν) (l : Nat) (h : Inv c
     (t.rehashLock c l true).locks.size = t.locks.size ∧
     (t.rehashLock c l true).oldGens = t.oldGens ∧
     (∀ lk, (t.rehashLock c l true).locks[l]? = some lk → lk.migrated = true) := by
-  sorry
+  obtain ⟨a1, a2, a3, a4, a5, a6, _, a8⟩ := rehashLock_step c t l true h.toW (fun _ => h.rem_eq)
+  exact ⟨a1.toInv (a8 rfl), a2, a3, a4, a5, a6⟩
+theorem rehash2_spec (c : Cfg κ) (t : Table κ ν) (la lb : Nat) (h : Inv c t) :
+    Inv c ((t.rehashLock c la true).rehashLock c lb true) ∧
+    Same c t ((t.rehashLock c la true).rehashLock c lb true) ∧
+    Keeps c t ((t.rehashLock c la true).rehashLock c lb true) ∧
+    (∀ b, c.lockInd b = la ∨ c.lockInd b = lb →
+      ((t.rehashLock c la true).rehashLock c lb true).unmigB c b = false) := by
+  obtain ⟨a1, a2, a3, _, _, a6⟩ := rehashLock_lazy_spec c t la h
+  obtain ⟨b1, b2, b3, _, _, b6⟩ := rehashLock_lazy_spec c (t.rehashLock c la true) lb a1
+  refine ⟨b1, a2.trans b2, a3.trans b3, ?_⟩
+  intro b hb
+  rcases hb with e | e
+  · apply b3.mono
+    exact unmigB_false_of_flag c _ b (by rw [e]; exact a6)
+  · exact unmigB_false_of_flag c _ b (by rw [e]; exact b6)
+
+theorem rehash3_spec (c : Cfg κ) (t : Table κ ν) (la lb lc : Nat) (h : Inv c t) :
+    Inv c (((t.rehashLock c la true).rehashLock c lb true).rehashLock c lc true) ∧
+    Same c t (((t.rehashLock c la true).rehashLock c lb true).rehashLock c lc true) ∧
+    Keeps c t (((t.rehashLock c la true).rehashLock c lb true).rehashLock c lc true) ∧
+    (∀ b, c.lockInd b = la ∨ c.lockInd b = lb ∨ c.lockInd b = lc →
+      (((t.rehashLock c la true).rehashLock c lb true).rehashLock c lc true).unmigB c b = false) := by
+  obtain ⟨a1, a2, a3, a4⟩ := rehash2_spec c t la lb h
+  obtain ⟨b1, b2, b3, _, _, b6⟩ :=
+    rehashLock_lazy_spec c ((t.rehashLock c la true).rehashLock c lb true) lc a1
+  refine ⟨b1, a2.trans b2, a3.trans b3, ?_⟩
+  intro b hb
+  rcases hb with e | e | e
+  · exact b3.mono b (a4 b (Or.inl e))
+  · exact b3.mono b (a4 b (Or.inr e))
+  · exact unmigB_false_of_flag c _ b (by rw [e]; exact b6)
+
+theorem lockThree_eq (c : Cfg κ) (t : Table κ ν) (b1 b2 b3 : Nat) :
+    ∃ la lb lc, t.lockThree c b1 b2 b3 =
+        ((t.rehashLock c la true).rehashLock c lb true).rehashLock c lc true ∧
+      (c.lockInd b1 = la ∨ c.lockInd b1 = lb ∨ c.lockInd b1 = lc) ∧
+      (c.lockInd b2 = la ∨ c.lockInd b2 = lb ∨ c.lockInd b2 = lc) ∧
+      (c.lockInd b3 = la ∨ c.lockInd b3 = lb ∨ c.lockInd b3 = lc) := by
+  unfold Table.lockThree
+  simp only []
+  generalize c.lockInd b1 = x
+  generalize c.lockInd b2 = y
+  generalize c.lockInd b3 = z
+  by_cases h1 : z < y <;> simp only [h1, if_true, if_false]
+  · by_cases h2 : y < x <;> simp only [h2, if_true, if_false]
+    · by_cases h3 : z < y <;> simp only [h3, if_true, if_false]
+      · exact ⟨_, _, _, rfl, by simp, by simp, by simp⟩
+      · exact ⟨_, _, _, rfl, by simp, by simp, by simp⟩
+    · by_cases h3 : z < x <;> simp only [h3, if_true, if_false]
+      · exact ⟨_, _, _, rfl, by simp, by simp, by simp⟩
+      · exact ⟨_, _, _, rfl, by simp, by simp, by simp⟩
+  · by_cases h2 : z < x <;> simp only [h2, if_true, if_false]
+    · by_cases h3 : y < z <;> simp only [h3, if_true, if_false]
+      · exact ⟨_, _, _, rfl, by simp, by simp, by simp⟩
+      · exact ⟨_, _, _, rfl, by simp, by simp, by simp⟩
+    · by_cases h3 : y < x <;> simp only [h3, if_true, if_false]
+      · exact ⟨_, _, _, rfl, by simp, by simp, by simp⟩
+      · exact ⟨_, _, _, rfl, by simp, by simp, by simp⟩
+
+theorem lockTwo_eq (c : Cfg κ) (t : Table κ ν) (b1 b2 : Nat) :
+    ∃ la lb, t.lockTwo c b1 b2 = (t.rehashLock c la true).rehashLock c lb true ∧
+      (c.lockInd b1 = la ∨ c.lockInd b1 = lb) ∧ (c.lockInd b2 = la ∨ c.lockInd b2 = lb) := by
+  unfold Table.lockTwo
+  simp only []
+  generalize c.lockInd b1 = x
+  generalize c.lockInd b2 = y
+  by_cases h1 : y < x <;> simp only [h1, if_true, if_false]
+  · exact ⟨_, _, rfl, by simp, by simp⟩
+  · exact ⟨_, _, rfl, by simp, by simp⟩
 
 theorem lockOne_spec (c : Cfg κ) (t : Table κ ν) (b : Nat) (h : Inv c t) :
     Inv c (t.lockOne c b) ∧ Same c t (t.lockOne c b) ∧ Keeps c t (t.lockOne c b) ∧
     (t.lockOne c b).unmigB c b = false := by
-  sorry
+  obtain ⟨a1, a2, a3, _, _, a6⟩ := rehashLock_lazy_spec c t (c.lockInd b) h
+  exact ⟨a1, a2, a3, unmigB_false_of_flag c _ b a6⟩
 
 theorem lockTwo_spec (c : Cfg κ) (t : Table κ ν) (b1 b2 : Nat) (h : Inv c t) :
     Inv c (t.lockTwo c b1 b2) ∧ Same c t (t.lockTwo c b1 b2) ∧ Keeps c t (t.lockTwo c b1 b2) ∧
     (t.lockTwo c b1 b2).unmigB c b1 = false ∧ (t.lockTwo c b1 b2).unmigB c b2 = false := by
-  sorry
+  obtain ⟨la, lb, e, h1, h2⟩ := lockTwo_eq c t b1 b2
+  rw [e]
+  obtain ⟨a1, a2, a3, a4⟩ := rehash2_spec c t la lb h
+  exact ⟨a1, a2, a3, a4 b1 h1, a4 b2 h2⟩
 
 theorem lockThree_spec (c : Cfg κ) (t : Table κ ν) (b1 b2 b3 : Nat) (h : Inv c t) :
     Inv c (t.lockThree c b1 b2 b3) ∧ Same c t (t.lockThree c b1 b2 b3) ∧ Keeps c t (t.lockThree c b1 b2 b3) ∧
     (t.lockThree c b1 b2 b3).unmigB c b1 = false ∧ (t.lockThree c b1 b2 b3).unmigB c b2 = false ∧
     (t.lockThree c b1 b2 b3).unmigB c b3 = false := by
-  sorry
+  obtain ⟨la, lb, lc, e, h1, h2, h3⟩ := lockThree_eq c t b1 b2 b3
+  rw [e]
+  obtain ⟨a1, a2, a3, a4⟩ := rehash3_spec c t la lb lc h
+  exact ⟨a1, a2, a3, a4 b1 h1, a4 b2 h2, a4 b3 h3⟩
 
 /-- the mode-dispatching variants: in locked mode nothing happens and everything is migrated already -/
 theorem lockOneM_spec (c : Cfg κ) (locked : Bool) (t : Table κ ν) (b : Nat) (h : Inv c t)
     (hl : locked = true → AllMig t) :
     Inv c (t.lockOneM c locked b) ∧ Same c t (t.lockOneM c locked b) ∧ Keeps c t (t.lockOneM c locked b) ∧
     (t.lockOneM c locked b).unmigB c b = false := by
-  sorry
+  unfold Table.lockOneM
+  cases locked with
+  | true => exact ⟨h, Same.refl c t, Keeps.refl c t, (hl rfl).unmigB b⟩
+  | false => exact lockOne_spec c t b h
 
 theorem lockTwoM_spec (c : Cfg κ) (locked : Bool) (t : Table κ ν) (b1 b2 : Nat) (h : Inv c t)
     (hl : locked = true → AllMig t) :
     Inv c (t.lockTwoM c locked b1 b2) ∧ Same c t (t.lockTwoM c locked b1 b2) ∧ Keeps c t (t.lockTwoM c locked b1 b2) ∧
     (t.lockTwoM c locked b1 b2).unmigB c b1 = false ∧ (t.lockTwoM c locked b1 b2).unmigB c b2 = false := by
-  sorry
+  unfold Table.lockTwoM
+  cases locked with
+  | true => exact ⟨h, Same.refl c t, Keeps.refl c t, (hl rfl).unmigB b1, (hl rfl).unmigB b2⟩
+  | false => exact lockTwo_spec c t b1 b2 h
 
 theorem lockThreeM_spec (c : Cfg κ) (locked : Bool) (t : Table κ ν) (b1 b2 b3 : Nat) (h : Inv c t)
     (hl : locked = true → AllMig t) :
@@ -68,13 +337,61 @@ theorem lockThreeM_spec (c : Cfg κ) (locked : Bool) (t : Table κ ν) (b1 b2 b3
     Keeps c t (t.lockThreeM c locked b1 b2 b3) ∧
     (t.lockThreeM c locked b1 b2 b3).unmigB c b1 = false ∧ (t.lockThreeM c locked b1 b2 b3).unmigB c b2 = false ∧
     (t.lockThreeM c locked b1 b2 b3).unmigB c b3 = false := by
-  sorry
+  unfold Table.lockThreeM
+  cases locked with
+  | true =>
+    exact ⟨h, Same.refl c t, Keeps.refl c t, (hl rfl).unmigB b1, (hl rfl).unmigB b2, (hl rfl).unmigB b3⟩
+  | false => exact lockThree_spec c t b1 b2 b3 h
+theorem migrateAll_go_spec (c : Cfg κ) : ∀ (n l : Nat) (t : Table κ ν), WInv c t →
+    (∀ i, i < l → ∀ lk, t.locks[i]? = some lk → lk.migrated = true) → l + n = t.locks.size →
+    WInv c (Table.migrateAll.go c n l t) ∧ Same c t (Table.migrateAll.go c n l t) ∧
+    (Table.migrateAll.go c n l t).hp = t.hp ∧ (Table.migrateAll.go c n l t).rc = t.rc ∧
+    AllMig (Table.migrateAll.go c n l t) ∧ (Table.migrateAll.go c n l t).locks.size = t.locks.size ∧
+    (Table.migrateAll.go c n l t).oldGens = t.oldGens := by
+  intro n
+  induction n with
+  | zero =>
+    intro l t hw hf hsz
+    unfold Table.migrateAll.go
+    refine ⟨hw, Same.refl c t, rfl, rfl, ?_, rfl, rfl⟩
+    intro i lk hi
+    have : i < t.locks.size := (Array.getElem?_eq_some_iff.mp hi).1
+    exact hf i (by omega) lk hi
+  | succ n ih =>
+    intro l t hw hf hsz
+    unfold Table.migrateAll.go
+    obtain ⟨a1, a2, a3, a4, a5, a6, a7, _⟩ := rehashLock_step c t l false hw (fun h => by cases h)
+    obtain ⟨b1, b2, b3, b4, b5, b6, b7⟩ := ih (l + 1) (t.rehashLock c l false) a1
+      (by
+        intro i hi lk hlk
+        rcases Nat.lt_or_ge i l with h | h
+        · exact a7 i (hf i h) lk hlk
+        · have : i = l := by omega
+          subst this
+          exact a6 lk hlk)
+      (by rw [a4]; omega)
+    exact ⟨b1, a2.trans b2, b3.trans a3.hp, b4.trans a3.rc, b5, b6.trans a4, b7.trans a5⟩
 
 /-- finishing every pending migration (`rehash_with_workers`, the loop of `cuckoo_fast_double`) -/
 theorem migrateAll_spec (c : Cfg κ) (t : Table κ ν) (h : Inv c t) :
     Inv c (t.migrateAll c) ∧ Same c t (t.migrateAll c) ∧ (t.migrateAll c).hp = t.hp ∧ (t.migrateAll c).rc = t.rc ∧
     AllMig (t.migrateAll c) ∧ (t.migrateAll c).rem = 0 ∧ (t.migrateAll c).old = none ∧
     (t.migrateAll c).locks.size = t.locks.size ∧ (t.migrateAll c).oldGens = t.oldGens := by
-  sorry
+  obtain ⟨a1, a2, a3, a4, a5, a6, a7⟩ := migrateAll_go_spec c t.locks.size 0 t h.toW
+    (fun i hi => by omega) (by omega)
+  have e : t.migrateAll c =
+      { Table.migrateAll.go c t.locks.size 0 t with rem := 0, old := none } := by
+    unfold Table.migrateAll Table.setRem
+    simp
+  rw [e]
+  have hz : (Table.migrateAll.go c t.locks.size 0 t).nUnmig = 0 := (nUnmig_zero_iff _).mpr a5
+  have hat := at_dropOld c (Table.migrateAll.go c t.locks.size 0 t)
+    { Table.migrateAll.go c t.locks.size 0 t with rem := 0, old := none } rfl rfl rfl hz
+  have w := WInv.of_at_eq c _ { Table.migrateAll.go c t.locks.size 0 t with rem := 0, old := none }
+    a1 rfl rfl rfl hat (fun hp => by omega)
+  refine ⟨w.toInv ?_, ⟨fun sl => (live_of_at_eq hat sl).trans (a2.live sl), a2.sum, a2.mlf, a2.mhp, a2.workers⟩,
+    a3, a4, a5, rfl, rfl, a6, a7⟩
+  show 0 = _
+  exact hz.symm
 
 end Cuckoo.Model
